@@ -117,7 +117,7 @@ def relation_query(chk, label, a, b):
     return diffs
 
 
-def registry(chk):
+def registry(chk, phase="after import"):
     """every protocol type defined by the package is in ALL_TYPES_MAP under its own name, and nothing else is"""
     from lsprotocol import types as L
 
@@ -137,15 +137,16 @@ def registry(chk):
     b = {(n, "in_registry"): True for n in L.ALL_TYPES_MAP if n in defined or n in spec_names}
     same_obj = {(n, "same_object"): True for n in defined if n in L.ALL_TYPES_MAP}
     got_obj = {(n, "same_object"): (L.ALL_TYPES_MAP[n] is defined[n] or L.ALL_TYPES_MAP[n] == defined[n]) for n in defined if n in L.ALL_TYPES_MAP}
-    diffs = relation_query(chk, "registry_membership", a, b) + relation_query(chk, "registry_identity", same_obj, got_obj)
+    tag = phase.replace(" ", "_")
+    diffs = relation_query(chk, "registry_membership_" + tag, a, b) + relation_query(chk, "registry_identity_" + tag, same_obj, got_obj)
     for k, want, got in diffs:
         name = k[0]
         code = (
             "from lsprotocol import types\n"
-            "def replay():\n    ok = %r in types.ALL_TYPES_MAP and (types.ALL_TYPES_MAP[%r] is getattr(types, %r) or types.ALL_TYPES_MAP[%r] == getattr(types, %r))\n"
+            "def replay():\n    from lsprotocol import converters\n    if %r: converters.get_converter()\n    ok = %r in types.ALL_TYPES_MAP and (types.ALL_TYPES_MAP[%r] is getattr(types, %r) or types.ALL_TYPES_MAP[%r] == getattr(types, %r))\n"
             "    return (ok, 'ALL_TYPES_MAP has no (or a different) entry for %s')\n"
-        ) % (name, name, name, name, name, name)
-        chk.violation("registry: %s %s: expected %r, found %r" % (name, k[1], want, got), {"kind": "python", "code": code, "site": "registry " + name})
+        ) % (phase != "after import", name, name, name, name, name, name)
+        chk.violation("registry (%s): %s %s: expected %r, found %r" % (phase, name, k[1], want, got), {"kind": "python", "code": code, "site": "registry " + name})
     chk.ev.coverage["registry"] = {"defined_names": len(defined), "registry_size": len(L.ALL_TYPES_MAP)}
 
 
@@ -166,7 +167,11 @@ def check(tier):
         chk.violation("method %s: %s is %r, the metamodel says %r" % (m, fact, got, want), {"kind": "python", "code": code, "site": "%s %s" % (m, fact)})
     # constants that name no method ("and for nothing else")
     methods = {r["method"] for r in SPEC.requests} | {n["method"] for n in SPEC.notifications}
-    registry(chk)
+    registry(chk, "after import")
+    from lsprotocol import converters
+
+    converters.get_converter()
+    registry(chk, "after the first converter was created")
     sl = 24 if tier == "thorough" else 12
     ls = [
         xh.Lemma("dir_unknown", [("s", "str")], ["return V.direction_unknown(s)"], pre=["len(s) <= %d" % sl, "s not in V.METHODS"], meta={"site": "message_direction(s) for s outside the 95 methods raises KeyError"}),
